@@ -2,8 +2,8 @@
 
 CFG = {
     'sub': 'c13',
-    'gens': [],
-    'coq_files': ['Bytes.v', 'Model_C13.v', 'Proofs_C13.v', 'Props_C13.v', 'Run_C13.v'],
+    'gens': [('gen_routing_sites.py', 'RoutingSites.v')],
+    'coq_files': ['Bytes.v', 'Model_C13.v', 'RoutingSites.v', 'Proofs_C13.v', 'Props_C13.v', 'Run_C13.v'],
     'props': 'Props_C13.v', 'run': 'Run_C13.v',
     'widen_runs': 3,
     'rule': 'hash inputs of every length 0..100 (all xxHash block boundaries 0,1,3,4,7,8,31,32,33,63,64,65,95,96,97 oversampled; random, '
@@ -17,7 +17,10 @@ CFG = {
                     'server names in a list are distinct (two equal names have equal scores)',
                     '"every server owns a share of a large key set" is a statistical statement about xxHash: evaluated as a TEST '
                     '(stats.share_test: share within +-35% of 1/n for n=1..16), not proved'],
-    'trusted_extra': ['Model_C13.xxh64 (hand-written Gallina model of cespare/xxhash v1.1.0 Sum64, tied to the implementation by the CHash/CRv cases)',
+    'trusted_extra': ['translator gen/gen_routing_sites.py (lists every RendezvousHash call of cluster/*.go and refuses a call site whose key is '
+                      'not the id of the record / shard at hand, whose server list is not c.Servers, or that caches or conditionally recomputes '
+                      'the destination; exits 3 on any other shape)',
+                      'Model_C13.xxh64 (hand-written Gallina model of cespare/xxhash v1.1.0 Sum64, tied to the implementation by the CHash/CRv cases)',
                       'slices.SortFunc returns a permutation of its input sorted w.r.t. the comparison (Go standard library; any such sort is covered by c13_any_sort)'],
 }
 
